@@ -281,7 +281,7 @@ void InterfaceMakerPythonSimple::write_function_instance(ostream &out, Interface
         format_specifiers += "u#";
         parameter_list += ", &" + param_name
           + "_str, &" + param_name + "_len";
-        pexpr_string = "basic_string<wchar_t>((wchar_t *)" +
+        pexpr_string = "std::basic_string<wchar_t>((wchar_t *)" +
           param_name + "_str, " +
           param_name + "_len)";
 
@@ -291,7 +291,7 @@ void InterfaceMakerPythonSimple::write_function_instance(ostream &out, Interface
         format_specifiers += "s#";
         parameter_list += ", &" + param_name
           + "_str, &" + param_name + "_len";
-        pexpr_string = "basic_string<char>(" +
+        pexpr_string = "std::basic_string<char>(" +
           param_name + "_str, " +
           param_name + "_len)";
       }
